@@ -1,29 +1,143 @@
 /-
-C08 – re-statements of the function-outline ties of source files this property DEPENDS on without being anchored in
-them (bin/mk_dependency_ties.py; hand-run): a source change there is reported for C08 as well.
+C08 – re-statements of the function-outline ties of the source files this property DEPENDS on without being anchored in
+them: the other files of its packages and every package they import (bin/mk_dependency_ties.py; hand-run). A source change
+there is reported for C08 as well.
 -/
-import Uniflow.Props.C06TieFn2
-import Uniflow.Props.C07TieFn1
-import Uniflow.Props.C05TieFn1
-import Uniflow.Props.C05TieFn2
+import Uniflow.Props.C01TieLayer
 import Uniflow.Props.C01TieFn1
 import Uniflow.Props.C01TieFn2
+import Uniflow.Props.C02TieFn1
+import Uniflow.Props.C02TieLayer
+import Uniflow.Props.C02TieFn2
+import Uniflow.Props.C04TieFn1
 import Uniflow.Props.C05TieLayer
-import Uniflow.Props.C01TieLayer
+import Uniflow.Props.C05TieFn1
+import Uniflow.Props.C05TieFn2
+import Uniflow.Props.C06TieFn2
+import Uniflow.Props.C07TieFn1
+import Uniflow.Props.C14Tie1
+import Uniflow.Props.C14Tie2
+import Uniflow.Props.C15TieSrc
+import Uniflow.Props.C16Tie5
+import Uniflow.Props.C16Tie3
+import Uniflow.Props.C16Tie6
+import Uniflow.Props.C16Tie1
+import Uniflow.Props.C16Tie2
+import Uniflow.Props.C16Tie4
+import Uniflow.Props.C17Tie
+import Uniflow.Props.C18Tie
 
-theorem C08.dep_C06_symbol_symbol_as_modelled : type_of% C06.src_symbol_symbol_as_modelled := C06.src_symbol_symbol_as_modelled
-theorem C08.dep_C07_symbol_loadhook_as_modelled : type_of% C07.src_symbol_loadhook_as_modelled := C07.src_symbol_loadhook_as_modelled
-theorem C08.dep_C07_symbol_unloadhook_as_modelled : type_of% C07.src_symbol_unloadhook_as_modelled := C07.src_symbol_unloadhook_as_modelled
-theorem C08.dep_C07_hook_hook_as_modelled : type_of% C07.src_hook_hook_as_modelled := C07.src_hook_hook_as_modelled
-theorem C08.dep_C05_port_inport_as_modelled_1 : type_of% C05.src_port_inport_as_modelled_1 := C05.src_port_inport_as_modelled_1
-theorem C08.dep_C05_port_inport_as_modelled_2 : type_of% C05.src_port_inport_as_modelled_2 := C05.src_port_inport_as_modelled_2
-theorem C08.dep_C05_port_outport_as_modelled_1 : type_of% C05.src_port_outport_as_modelled_1 := C05.src_port_outport_as_modelled_1
-theorem C08.dep_C05_port_outport_as_modelled_2 : type_of% C05.src_port_outport_as_modelled_2 := C05.src_port_outport_as_modelled_2
+theorem C08.dep_C01_packet_hook_as_modelled : type_of% C01.src_packet_hook_as_modelled := C01.src_packet_hook_as_modelled
 theorem C08.dep_C01_packet_packet_as_modelled : type_of% C01.src_packet_packet_as_modelled := C01.src_packet_packet_as_modelled
 theorem C08.dep_C01_packet_reader_as_modelled : type_of% C01.src_packet_reader_as_modelled := C01.src_packet_reader_as_modelled
 theorem C08.dep_C01_packet_writer_as_modelled_1 : type_of% C01.src_packet_writer_as_modelled_1 := C01.src_packet_writer_as_modelled_1
 theorem C08.dep_C01_packet_writer_as_modelled_2 : type_of% C01.src_packet_writer_as_modelled_2 := C01.src_packet_writer_as_modelled_2
+theorem C08.dep_C02_node_manytoone_as_modelled : type_of% C02.src_node_manytoone_as_modelled := C02.src_node_manytoone_as_modelled
+theorem C08.dep_C02_node_node_as_modelled : type_of% C02.src_node_node_as_modelled := C02.src_node_node_as_modelled
+theorem C08.dep_C02_node_onetomany_as_modelled : type_of% C02.src_node_onetomany_as_modelled := C02.src_node_onetomany_as_modelled
+theorem C08.dep_C02_node_onetoone_as_modelled : type_of% C02.src_node_onetoone_as_modelled := C02.src_node_onetoone_as_modelled
+theorem C08.dep_C02_node_port_as_modelled : type_of% C02.src_node_port_as_modelled := C02.src_node_port_as_modelled
+theorem C08.dep_C02_packet_readgroup_as_modelled : type_of% C02.src_packet_readgroup_as_modelled := C02.src_packet_readgroup_as_modelled
+theorem C08.dep_C02_packet_tracer_as_modelled_1 : type_of% C02.src_packet_tracer_as_modelled_1 := C02.src_packet_tracer_as_modelled_1
+theorem C08.dep_C02_packet_tracer_as_modelled_2 : type_of% C02.src_packet_tracer_as_modelled_2 := C02.src_packet_tracer_as_modelled_2
+theorem C08.dep_C02_packet_tracer_as_modelled_3 : type_of% C02.src_packet_tracer_as_modelled_3 := C02.src_packet_tracer_as_modelled_3
+theorem C08.dep_C02_port_pipe_as_modelled : type_of% C02.src_port_pipe_as_modelled := C02.src_port_pipe_as_modelled
+theorem C08.dep_C04_process_exithook_as_modelled : type_of% C04.src_process_exithook_as_modelled := C04.src_process_exithook_as_modelled
+theorem C08.dep_C04_process_process_as_modelled_1 : type_of% C04.src_process_process_as_modelled_1 := C04.src_process_process_as_modelled_1
+theorem C08.dep_C04_process_process_as_modelled_2 : type_of% C04.src_process_process_as_modelled_2 := C04.src_process_process_as_modelled_2
+theorem C08.dep_C05_port_closehook_as_modelled : type_of% C05.src_port_closehook_as_modelled := C05.src_port_closehook_as_modelled
+theorem C08.dep_C05_port_inport_as_modelled_1 : type_of% C05.src_port_inport_as_modelled_1 := C05.src_port_inport_as_modelled_1
+theorem C08.dep_C05_port_inport_as_modelled_2 : type_of% C05.src_port_inport_as_modelled_2 := C05.src_port_inport_as_modelled_2
 theorem C08.dep_C05_port_listener_as_modelled : type_of% C05.src_port_listener_as_modelled := C05.src_port_listener_as_modelled
 theorem C08.dep_C05_port_openhook_as_modelled : type_of% C05.src_port_openhook_as_modelled := C05.src_port_openhook_as_modelled
-theorem C08.dep_C05_port_closehook_as_modelled : type_of% C05.src_port_closehook_as_modelled := C05.src_port_closehook_as_modelled
-theorem C08.dep_C01_packet_hook_as_modelled : type_of% C01.src_packet_hook_as_modelled := C01.src_packet_hook_as_modelled
+theorem C08.dep_C05_port_outport_as_modelled_1 : type_of% C05.src_port_outport_as_modelled_1 := C05.src_port_outport_as_modelled_1
+theorem C08.dep_C05_port_outport_as_modelled_2 : type_of% C05.src_port_outport_as_modelled_2 := C05.src_port_outport_as_modelled_2
+theorem C08.dep_C05_process_local_as_modelled_1 : type_of% C05.src_process_local_as_modelled_1 := C05.src_process_local_as_modelled_1
+theorem C08.dep_C05_process_local_as_modelled_2 : type_of% C05.src_process_local_as_modelled_2 := C05.src_process_local_as_modelled_2
+theorem C08.dep_C05_process_storehook_as_modelled : type_of% C05.src_process_storehook_as_modelled := C05.src_process_storehook_as_modelled
+theorem C08.dep_C06_symbol_symbol_as_modelled : type_of% C06.src_symbol_symbol_as_modelled := C06.src_symbol_symbol_as_modelled
+theorem C08.dep_C07_hook_hook_as_modelled : type_of% C07.src_hook_hook_as_modelled := C07.src_hook_hook_as_modelled
+theorem C08.dep_C07_symbol_loadhook_as_modelled : type_of% C07.src_symbol_loadhook_as_modelled := C07.src_symbol_loadhook_as_modelled
+theorem C08.dep_C07_symbol_unloadhook_as_modelled : type_of% C07.src_symbol_unloadhook_as_modelled := C07.src_symbol_unloadhook_as_modelled
+theorem C08.dep_C14_types_binary_as_modelled : type_of% C14.src_types_binary_as_modelled := C14.src_types_binary_as_modelled
+theorem C08.dep_C14_types_boolean_as_modelled : type_of% C14.src_types_boolean_as_modelled := C14.src_types_boolean_as_modelled
+theorem C08.dep_C14_types_buffer_as_modelled : type_of% C14.src_types_buffer_as_modelled := C14.src_types_buffer_as_modelled
+theorem C08.dep_C14_types_error_as_modelled : type_of% C14.src_types_error_as_modelled := C14.src_types_error_as_modelled
+theorem C08.dep_C14_types_float_as_modelled : type_of% C14.src_types_float_as_modelled := C14.src_types_float_as_modelled
+theorem C08.dep_C14_types_integer_as_modelled_1 : type_of% C14.src_types_integer_as_modelled_1 := C14.src_types_integer_as_modelled_1
+theorem C08.dep_C14_types_integer_as_modelled_2 : type_of% C14.src_types_integer_as_modelled_2 := C14.src_types_integer_as_modelled_2
+theorem C08.dep_C14_types_slice_as_modelled_1 : type_of% C14.src_types_slice_as_modelled_1 := C14.src_types_slice_as_modelled_1
+theorem C08.dep_C14_types_slice_as_modelled_2 : type_of% C14.src_types_slice_as_modelled_2 := C14.src_types_slice_as_modelled_2
+theorem C08.dep_C14_types_string_as_modelled : type_of% C14.src_types_string_as_modelled := C14.src_types_string_as_modelled
+theorem C08.dep_C14_types_uinteger_as_modelled_1 : type_of% C14.src_types_uinteger_as_modelled_1 := C14.src_types_uinteger_as_modelled_1
+theorem C08.dep_C14_types_uinteger_as_modelled_2 : type_of% C14.src_types_uinteger_as_modelled_2 := C14.src_types_uinteger_as_modelled_2
+theorem C08.dep_C14_types_value_as_modelled : type_of% C14.src_types_value_as_modelled := C14.src_types_value_as_modelled
+theorem C08.dep_C15_types_map_as_modelled_1 : type_of% C15.src_types_map_as_modelled_1 := C15.src_types_map_as_modelled_1
+theorem C08.dep_C15_types_map_as_modelled_2 : type_of% C15.src_types_map_as_modelled_2 := C15.src_types_map_as_modelled_2
+theorem C08.dep_C15_types_map_as_modelled_3 : type_of% C15.src_types_map_as_modelled_3 := C15.src_types_map_as_modelled_3
+theorem C08.dep_C15_types_map_as_modelled_4 : type_of% C15.src_types_map_as_modelled_4 := C15.src_types_map_as_modelled_4
+theorem C08.dep_C16_encoding_assembler_as_modelled : type_of% C16.src_encoding_assembler_as_modelled := C16.src_encoding_assembler_as_modelled
+theorem C08.dep_C16_encoding_compiler_as_modelled : type_of% C16.src_encoding_compiler_as_modelled := C16.src_encoding_compiler_as_modelled
+theorem C08.dep_C16_encoding_decoder_as_modelled : type_of% C16.src_encoding_decoder_as_modelled := C16.src_encoding_decoder_as_modelled
+theorem C08.dep_C16_encoding_encoder_as_modelled : type_of% C16.src_encoding_encoder_as_modelled := C16.src_encoding_encoder_as_modelled
+theorem C08.dep_C16_encoding_group_as_modelled : type_of% C16.src_encoding_group_as_modelled := C16.src_encoding_group_as_modelled
+theorem C08.dep_C16_spec_encoding_as_modelled : type_of% C16.src_spec_encoding_as_modelled := C16.src_spec_encoding_as_modelled
+theorem C08.dep_C16_types_binary_as_modelled_1 : type_of% C16.src_types_binary_as_modelled_1 := C16.src_types_binary_as_modelled_1
+theorem C08.dep_C16_types_binary_as_modelled_2 : type_of% C16.src_types_binary_as_modelled_2 := C16.src_types_binary_as_modelled_2
+theorem C08.dep_C16_types_boolean_as_modelled : type_of% C16.src_types_boolean_as_modelled := C16.src_types_boolean_as_modelled
+theorem C08.dep_C16_types_buffer_as_modelled_1 : type_of% C16.src_types_buffer_as_modelled_1 := C16.src_types_buffer_as_modelled_1
+theorem C08.dep_C16_types_buffer_as_modelled_2 : type_of% C16.src_types_buffer_as_modelled_2 := C16.src_types_buffer_as_modelled_2
+theorem C08.dep_C16_types_encoding_as_modelled_1 : type_of% C16.src_types_encoding_as_modelled_1 := C16.src_types_encoding_as_modelled_1
+theorem C08.dep_C16_types_encoding_as_modelled_2 : type_of% C16.src_types_encoding_as_modelled_2 := C16.src_types_encoding_as_modelled_2
+theorem C08.dep_C16_types_error_as_modelled : type_of% C16.src_types_error_as_modelled := C16.src_types_error_as_modelled
+theorem C08.dep_C16_types_float_as_modelled_1 : type_of% C16.src_types_float_as_modelled_1 := C16.src_types_float_as_modelled_1
+theorem C08.dep_C16_types_float_as_modelled_2 : type_of% C16.src_types_float_as_modelled_2 := C16.src_types_float_as_modelled_2
+theorem C08.dep_C16_types_integer_as_modelled_1 : type_of% C16.src_types_integer_as_modelled_1 := C16.src_types_integer_as_modelled_1
+theorem C08.dep_C16_types_integer_as_modelled_2 : type_of% C16.src_types_integer_as_modelled_2 := C16.src_types_integer_as_modelled_2
+theorem C08.dep_C16_types_json_as_modelled : type_of% C16.src_types_json_as_modelled := C16.src_types_json_as_modelled
+theorem C08.dep_C16_types_map_as_modelled_1 : type_of% C16.src_types_map_as_modelled_1 := C16.src_types_map_as_modelled_1
+theorem C08.dep_C16_types_map_as_modelled_2 : type_of% C16.src_types_map_as_modelled_2 := C16.src_types_map_as_modelled_2
+theorem C08.dep_C16_types_map_as_modelled_3 : type_of% C16.src_types_map_as_modelled_3 := C16.src_types_map_as_modelled_3
+theorem C08.dep_C16_types_map_as_modelled_4 : type_of% C16.src_types_map_as_modelled_4 := C16.src_types_map_as_modelled_4
+theorem C08.dep_C16_types_slice_as_modelled : type_of% C16.src_types_slice_as_modelled := C16.src_types_slice_as_modelled
+theorem C08.dep_C16_types_string_as_modelled_1 : type_of% C16.src_types_string_as_modelled_1 := C16.src_types_string_as_modelled_1
+theorem C08.dep_C16_types_string_as_modelled_2 : type_of% C16.src_types_string_as_modelled_2 := C16.src_types_string_as_modelled_2
+theorem C08.dep_C16_types_string_as_modelled_3 : type_of% C16.src_types_string_as_modelled_3 := C16.src_types_string_as_modelled_3
+theorem C08.dep_C16_types_time_as_modelled : type_of% C16.src_types_time_as_modelled := C16.src_types_time_as_modelled
+theorem C08.dep_C16_types_uinteger_as_modelled_1 : type_of% C16.src_types_uinteger_as_modelled_1 := C16.src_types_uinteger_as_modelled_1
+theorem C08.dep_C16_types_uinteger_as_modelled_2 : type_of% C16.src_types_uinteger_as_modelled_2 := C16.src_types_uinteger_as_modelled_2
+theorem C08.dep_C17_encoding_assembler_as_modelled : type_of% C17.src_encoding_assembler_as_modelled := C17.src_encoding_assembler_as_modelled
+theorem C08.dep_C17_encoding_compiler_as_modelled : type_of% C17.src_encoding_compiler_as_modelled := C17.src_encoding_compiler_as_modelled
+theorem C08.dep_C17_encoding_decoder_as_modelled : type_of% C17.src_encoding_decoder_as_modelled := C17.src_encoding_decoder_as_modelled
+theorem C08.dep_C17_encoding_encoder_as_modelled : type_of% C17.src_encoding_encoder_as_modelled := C17.src_encoding_encoder_as_modelled
+theorem C08.dep_C17_encoding_group_as_modelled : type_of% C17.src_encoding_group_as_modelled := C17.src_encoding_group_as_modelled
+theorem C08.dep_C17_spec_encoding_as_modelled : type_of% C17.src_spec_encoding_as_modelled := C17.src_spec_encoding_as_modelled
+theorem C08.dep_C17_types_binary_as_modelled_1 : type_of% C17.src_types_binary_as_modelled_1 := C17.src_types_binary_as_modelled_1
+theorem C08.dep_C17_types_binary_as_modelled_2 : type_of% C17.src_types_binary_as_modelled_2 := C17.src_types_binary_as_modelled_2
+theorem C08.dep_C17_types_boolean_as_modelled : type_of% C17.src_types_boolean_as_modelled := C17.src_types_boolean_as_modelled
+theorem C08.dep_C17_types_buffer_as_modelled_1 : type_of% C17.src_types_buffer_as_modelled_1 := C17.src_types_buffer_as_modelled_1
+theorem C08.dep_C17_types_buffer_as_modelled_2 : type_of% C17.src_types_buffer_as_modelled_2 := C17.src_types_buffer_as_modelled_2
+theorem C08.dep_C17_types_encoding_as_modelled_1 : type_of% C17.src_types_encoding_as_modelled_1 := C17.src_types_encoding_as_modelled_1
+theorem C08.dep_C17_types_encoding_as_modelled_2 : type_of% C17.src_types_encoding_as_modelled_2 := C17.src_types_encoding_as_modelled_2
+theorem C08.dep_C17_types_error_as_modelled : type_of% C17.src_types_error_as_modelled := C17.src_types_error_as_modelled
+theorem C08.dep_C17_types_float_as_modelled_1 : type_of% C17.src_types_float_as_modelled_1 := C17.src_types_float_as_modelled_1
+theorem C08.dep_C17_types_float_as_modelled_2 : type_of% C17.src_types_float_as_modelled_2 := C17.src_types_float_as_modelled_2
+theorem C08.dep_C17_types_integer_as_modelled_1 : type_of% C17.src_types_integer_as_modelled_1 := C17.src_types_integer_as_modelled_1
+theorem C08.dep_C17_types_integer_as_modelled_2 : type_of% C17.src_types_integer_as_modelled_2 := C17.src_types_integer_as_modelled_2
+theorem C08.dep_C17_types_json_as_modelled : type_of% C17.src_types_json_as_modelled := C17.src_types_json_as_modelled
+theorem C08.dep_C17_types_map_as_modelled_1 : type_of% C17.src_types_map_as_modelled_1 := C17.src_types_map_as_modelled_1
+theorem C08.dep_C17_types_map_as_modelled_2 : type_of% C17.src_types_map_as_modelled_2 := C17.src_types_map_as_modelled_2
+theorem C08.dep_C17_types_map_as_modelled_3 : type_of% C17.src_types_map_as_modelled_3 := C17.src_types_map_as_modelled_3
+theorem C08.dep_C17_types_map_as_modelled_4 : type_of% C17.src_types_map_as_modelled_4 := C17.src_types_map_as_modelled_4
+theorem C08.dep_C17_types_slice_as_modelled : type_of% C17.src_types_slice_as_modelled := C17.src_types_slice_as_modelled
+theorem C08.dep_C17_types_string_as_modelled_1 : type_of% C17.src_types_string_as_modelled_1 := C17.src_types_string_as_modelled_1
+theorem C08.dep_C17_types_string_as_modelled_2 : type_of% C17.src_types_string_as_modelled_2 := C17.src_types_string_as_modelled_2
+theorem C08.dep_C17_types_string_as_modelled_3 : type_of% C17.src_types_string_as_modelled_3 := C17.src_types_string_as_modelled_3
+theorem C08.dep_C17_types_time_as_modelled : type_of% C17.src_types_time_as_modelled := C17.src_types_time_as_modelled
+theorem C08.dep_C17_types_uinteger_as_modelled_1 : type_of% C17.src_types_uinteger_as_modelled_1 := C17.src_types_uinteger_as_modelled_1
+theorem C08.dep_C17_types_uinteger_as_modelled_2 : type_of% C17.src_types_uinteger_as_modelled_2 := C17.src_types_uinteger_as_modelled_2
+theorem C08.dep_C18_spec_spec_as_modelled : type_of% C18.src_spec_spec_as_modelled := C18.src_spec_spec_as_modelled
+theorem C08.dep_C18_spec_unstructured_as_modelled : type_of% C18.src_spec_unstructured_as_modelled := C18.src_spec_unstructured_as_modelled
+theorem C08.dep_C18_template_node_as_modelled : type_of% C18.src_template_node_as_modelled := C18.src_template_node_as_modelled
+theorem C08.dep_C18_template_template_as_modelled : type_of% C18.src_template_template_as_modelled := C18.src_template_template_as_modelled
+theorem C08.dep_C18_value_value_as_modelled : type_of% C18.src_value_value_as_modelled := C18.src_value_value_as_modelled
